@@ -2,6 +2,7 @@ import Pocket.Lemmas.FromSourceConsts
 import Pocket.Model.Crash
 import Pocket.Lemmas.StoreRead
 import Pocket.Lemmas.EventMap
+import Pocket.Lemmas.FromSourceEventMap
 /-
 C13 — killing the process at any instant leaves a consistent, reopenable store.
 PARTIAL (DESIGN.md §6/C13): process kill only; LMDB's commit atomicity, the kernel's page cache
@@ -121,5 +122,22 @@ theorems assume of it: a multiple of 8, at least the header -/
 theorem map_chunks_from_source :
     ∀ c ∈ Src.c_event_store_EVENT_MAP_CHUNK_debug ++ Src.c_event_store_EVENT_MAP_CHUNK_release, c % 8 = 0 ∧ 8 ≤ c :=
   Pocket.map_chunks_from_source
+
+/-- the event-map model these theorems are about is `event_store.rs` as it reads today (matched and translated on every run):
+`EventStore::new` takes a file for new, sizes it and remembers its length exactly as `emOpen` does; `store_event` pads to a multiple of
+8 as `emPad` does; and one round of its grow path sets file, mapping and remembered length to the REMEMBERED length plus one chunk,
+in the order set_len / resize / remember, as `emGrow` does -/
+theorem event_map_from_source (chunk fileLen marker : Nat) (m : EMap) :
+    (emOpen chunk fileLen marker =
+      (let len := Src.esInitLen chunk fileLen marker 8 8
+       if len < 8 then .err
+       else .ok { fileLen := len, marker := if Src.esNew fileLen marker 8 8 then 8 else marker,
+                  memLen := Src.esRemembered len, mapLen := len })) ∧
+    emPad m = Src.esPad m.marker ∧
+    emGrow chunk m =
+      { m with fileLen := (Src.esGrow chunk m.fileLen m.mapLen m.memLen).1,
+               mapLen := (Src.esGrow chunk m.fileLen m.mapLen m.memLen).2.1,
+               memLen := (Src.esGrow chunk m.fileLen m.mapLen m.memLen).2.2 } :=
+  ⟨em_open_from_source chunk fileLen marker, em_pad_from_source m, em_grow_from_source chunk m⟩
 
 end Pocket.C13
